@@ -14,7 +14,7 @@ from props.C07 import KNp, w_len, USc
 
 MANIFEST = dict(
     category="proof",
-    technique="the real compute_process_matrices and _compute_error_propagation_matrices executed on matrix letters with symbolic sizes; np.zeros returns a recording block matrix whose slice assignments (z3 integer bounds) are compared with Van Loan's block layout and the joint model's block layout; scipy expm replaced by its contract; Van Loan's theorem assumed; quadrature / composition run-time stand-in",
+    technique="the real compute_process_matrices and _compute_error_propagation_matrices executed on matrix letters with symbolic sizes; np.zeros returns a recording block matrix whose slice assignments (z3 integer bounds) are compared with Van Loan's block layout and the joint model's block layout; scipy expm replaced by its contract; Van Loan's theorem assumed; quadrature / composition run-time stand-in; Bounded stand-ins shared by all properties (labelled bounded, never counted as proved): the argument-form battery of the modules under contract (batches of 1 and 1200 rows, integer-typed values, labels / columns in other orders, extra labels); where the frame analysis finds state that outlives a call (a cache, a memo) the frame obligation becomes a dynamic purity contract against pristine process states; names the proofs replace by scipy contracts are checked to be bound to the library's functions (else a differential test).",
     text="For ALL state dimensions: the matrix handed to expm is exactly [[F, Q], [0, -F^T]] * dt (block placement proved from the recorded slice bounds for every n), and the results are E11 and E12 E11^T of E = expm(.), on every path of the function (a data-dependent shortcut forks the run and must satisfy the same contract); no allocation takes its dtype from an argument. By Van Loan's theorem (assumed) E11 = exp(F dt) and E12 E11^T is the integral of the propagated noise density, from which symmetry, positive semidefiniteness, zero for a zero step and the composition law follow. For the joint model all state and noise slices are proved to be the contiguous partition of [0, n_states) / [0, n_noises) for ALL sub-model sizes, with F = [[F_ii, F_ig H_g, F_ia H_a],[0,F_g,0],[0,0,F_a]], G and q = (v_g, v_a, q_g, q_a) squared placed in the same slice order. Exactness of expm itself and composition in floating point are covered by the bounded stand-in only.",
     note="A1; Van Loan (1978) theorem and the semigroup law of the matrix exponential are assumed; scipy expm contract assumed (stand-in compares with quadrature); recorded block matrices assume numpy basic-slice assignment semantics.",
 )
